@@ -15,6 +15,7 @@ EE, CERT, SKE, CERT_REQ, SHD, CERT_VERIFY, CKE, FINISHED = \
 KEY_UPDATE, NEXT_PROTO, COMPRESSED_CERT = 24, 67, 25
 CCS = "ccs"
 APPDATA = "appdata"
+ALERT_NOCERT = "alert_no_certificate"     # warning alert 41 (SSLv3 only)
 
 
 def name(t):
@@ -25,7 +26,8 @@ def name(t):
             15: "CertificateVerify", 16: "ClientKeyExchange",
             20: "Finished", 24: "KeyUpdate", 67: "NextProtocol",
             25: "CompressedCertificate", CCS: "ChangeCipherSpec",
-            APPDATA: "ApplicationData"}.get(t, str(t))
+            APPDATA: "ApplicationData",
+            ALERT_NOCERT: "Alert(no_certificate)"}.get(t, str(t))
 
 
 def legal(op, ver, sender, seq, i, extra=None, after_finished=False,
@@ -74,6 +76,11 @@ def legal(op, ver, sender, seq, i, extra=None, after_finished=False,
             return True
         return False
     if op == "insert":
+        if extra == ALERT_NOCERT:
+            # a stray warning alert: TLS <= 1.2 leaves it to the receiver,
+            # TLS 1.3 treats every alert but close_notify / user_canceled
+            # as an error (RFC 8446 section 6)
+            return False if tls13 else None
         if extra == APPDATA and post:
             # after the sender's Finished application data is what follows;
             # a TLS 1.3 server may send it right away (0.5-RTT)
@@ -110,6 +117,9 @@ def legal(op, ver, sender, seq, i, extra=None, after_finished=False,
     if op == "replace":
         if extra == m:
             return None      # same message type, other content: not ordering
+        if extra == ALERT_NOCERT and tuple(ver) == (3, 0) and \
+                sender == "c" and m == CERT:
+            return None      # SSLv3's way of saying "I have no certificate"
         # = message i left out and `extra` sent in its place
         a = legal("skip", ver, sender, seq, i, kex=kex)
         if a is False:
